@@ -9,7 +9,7 @@ from . import configs, tlc
 from .build import MachineryFailure
 
 VERIF = os.path.dirname(os.path.dirname(os.path.abspath(__file__)))
-EVID = os.path.join(VERIF, "evidence")
+EVID = os.environ.get("VERIF_EVID") or os.path.join(VERIF, "evidence")
 KNOWN = os.path.join(VERIF, "known_findings.json")
 BASES = {"0": 0, "2^32-3": 2 ** 32 - 3, "2^63": 2 ** 63, "2^64-40": 2 ** 64 - 40}
 
@@ -63,7 +63,7 @@ def _spec_digest(mod_files, cfg):
 
 
 def run_tlc_config(name, *, emit, workers=None, invariants=None, constraints=(), consts=None,
-                   simulate=None, depth=None, seed=None, timeout=3000, coverage=False):
+                   simulate=None, depth=None, seed=None, timeout=3000, coverage=False, action_constraints=()):
     """Run TLC on one configuration of Gtirb.tla.
 
     Transition dumps (emit=True, exhaustive) are a function of the specification alone -- not of
@@ -71,7 +71,7 @@ def run_tlc_config(name, *, emit, workers=None, invariants=None, constraints=(),
     rendered configuration; a hit is flagged in the result (from_cache) and in the evidence."""
     import gzip
     mod, files, cfg = configs.render(name, emit=emit, invariants=invariants, constraints=constraints,
-                                     consts=consts)
+                                     consts=consts, action_constraints=action_constraints)
     if workers is None:
         workers = 1 if emit else 8
     cacheable = emit and simulate is None and not os.environ.get("VERIF_NO_CACHE")
@@ -108,6 +108,17 @@ def parallel(fn, items, jobs=6):
 
 def finish(ctx, level="model_checking", rule=None):
     """Write evidence, print verdict lines, return the exit code."""
+    if os.environ.get("VERIF_WARM"):
+        return 0
+    child = os.environ.get("VERIF_CHILD")
+    if child:   # run under the other protobuf runtime on behalf of a parent check: report to it
+        with open(child, "w") as fh:
+            json.dump({"backend": ctx.notes.get("protobuf_backend"), "states": ctx.states, "transitions": ctx.transitions,
+                       "traces": ctx.traces, "evaluations": ctx.evaluations, "violations": ctx.violations,
+                       "stages": [{k: v for k, v in s.items() if k in ("stage", "config", "transitions_printed", "behaviours",
+                                                                      "corruptions", "outcomes")} for s in ctx.stages]},
+                      fh, default=str)
+        return 0
     os.makedirs(os.path.join(EVID, "replays"), exist_ok=True)
     known = [k for k in load_known() if k["property"] == ctx.prop and k.get("status") == "open"]
     new, old = [], []
